@@ -68,6 +68,16 @@ class Facts:
             except Exception as e:   # internal crash of an analysis: visible class, not a violation by itself
                 self.status[name] = f'crash:{type(e).__name__}'
                 self.errors[name] = f'{type(e).__name__}: {str(e)[:200]}'
+        # an analysis that fails with the very error of one of its prerequisites is blocked, not crashing
+        firsts = {}
+        for name, _ in ANALYSES:
+            st = self.status.get(name, '')
+            if st.startswith('crash:'):
+                msg = self.errors.get(name)
+                if msg in firsts:
+                    self.status[name] = f'blocked:{firsts[msg]}'
+                else:
+                    firsts[msg] = name
         du = self.res.get('DefineUse')
         self.du = du
         self.entry_defs = {}
@@ -260,7 +270,7 @@ def route_of(stmt):
             return pre + 'projection'
         if isinstance(e, Call):
             return pre + 'call'
-        return pre + 'other:' + type(e).__name__
+        return pre + 'assign:' + type(e).__name__
     if isinstance(stmt, (Argument, FuncDef)):
         return 'entry'
     return type(stmt).__name__
@@ -285,11 +295,11 @@ def check_run(facts: Facts, rec, result, stats: dict, rows=True):
     symvals = {}
     symseen = {}
 
+    fails = {'type': {}, 'size': {}, 'value_class': {}, 'const': {}}
     for idx, obs in rec.expr_obs.items():
         e = nodes[idx]
         if not isinstance(e, Expr):
             continue
-        ek = expr_kind(e)
         # ---- type
         if ti is not None and e in ti.by_expr:
             ty = ti.by_expr[e]
@@ -297,7 +307,7 @@ def check_run(facts: Facts, rec, result, stats: dict, rows=True):
                 add('facts:type')
                 m = has_shape(v, ty)
                 if m is not None:
-                    out.append((f'type/{ek}/{m}', ty.format(), kind_of(v), e.format()))
+                    fails['type'][e] = (m, ty.format(), kind_of(v))
                     break
         # ---- size
         if sz is not None and sz.by_expr.get(e) is not None:
@@ -305,14 +315,17 @@ def check_run(facts: Facts, rec, result, stats: dict, rows=True):
             for v in obs:
                 add('facts:size')
                 local = {}
+                bad = None
                 for kind, exp, got in check_size(v, b, local):
-                    out.append((f'size/{kind}/{ek}', exp, got, e.format()))
+                    bad = (kind, exp, got)
                     break
-                for k, s in local.items():
-                    if len(s) > 1:
-                        out.append((f'size/symbolic-unequal-within-value/{ek}', k, sorted(s), e.format()))
-                    symvals.setdefault(k, set()).update(s)
-                    symseen.setdefault(k, []).append((e, sorted(s)))
+                for k, sset in local.items():
+                    if len(sset) > 1 and bad is None:
+                        bad = ('symbolic-unequal-within-value', k, sorted(sset))
+                    symvals.setdefault(k, set()).update(sset)
+                    symseen.setdefault(k, []).append((e, sorted(sset)))
+                if bad is not None and e not in fails['size']:
+                    fails['size'][e] = bad
         # ---- value class
         if vc is not None and isinstance(vc.by_expr.get(e), ValueClass):
             fact = vc.by_expr[e]
@@ -324,7 +337,7 @@ def check_run(facts: Facts, rec, result, stats: dict, rows=True):
                 if fact != ValueClass.TOP:
                     add('facts:value_class-nontop')
                 if not (c & fact):
-                    out.append((f'value_class/{ek}/{c.name}-not-in-fact', str(fact), c.name, e.format()))
+                    fails['value_class'][e] = (c, str(fact), c.name)
                     break
         # ---- constant
         if pe is not None and e in pe.by_expr:
@@ -333,8 +346,46 @@ def check_run(facts: Facts, rec, result, stats: dict, rows=True):
             for v in obs:
                 add('facts:const')
                 if deep_den(v) != dc:
-                    out.append((f'const/{ek}', repr(dc)[:120], repr(deep_den(v))[:120], e.format()))
+                    fails['const'][e] = (cst, repr(dc)[:120], repr(deep_den(v))[:120], v)
                     break
+
+    # root causes sit at the innermost failing expressions: an expression whose sub-expression already
+    # contradicts its fact is a consequence
+    for an, fl in fails.items():
+        if not fl:
+            continue
+        memo = {}
+
+        def tainted(x):
+            if x in memo:
+                return memo[x]
+            memo[x] = False
+            r = any((c in fl) or tainted(c) for c in children(x))
+            memo[x] = r
+            return r
+        def from_failing_def(x):
+            # a variable read whose (possible) defining assignment already evaluated a failing expression
+            if not isinstance(x, Var) or du is None or x not in du.use_to_def:
+                return False
+            for a in facts.reach_sites(du.use_to_def[x]):
+                if isinstance(a.site, Assign):
+                    srcs = [a.site.expr]
+                elif isinstance(a.site, ForStmt):
+                    srcs = [a.site.iterable]
+                elif isinstance(a.site, ListComp):
+                    srcs = list(a.site.iterables)
+                else:
+                    continue
+                if any(y in fl or tainted(y) for y in srcs):
+                    return True
+            return False
+
+        for e, info in fl.items():
+            if tainted(e) or from_failing_def(e):
+                add(f'consequent-failures:{an}')
+                continue
+            bucket = classify_failure(facts, an, e, info)
+            out.append((bucket, info[1], info[2], e.format()))
 
     # ---- size: one size variable, one length (size variables are minted for parameters / captured
     #      values only, whose lengths are fixed for the whole call)
@@ -342,8 +393,11 @@ def check_run(facts: Facts, rec, result, stats: dict, rows=True):
         add('facts:size-symbolic')
         if len(s) > 1:
             exprs = sorted({f'{x.format()}:{l}' for x, l in symseen[k]})[:6]
-            kinds = '+'.join(sorted({expr_kind(x) for x, _ in symseen[k]}))
-            out.append((f'size/symbolic-unequal/{kinds}', f'one length for size variable {k}', sorted(s), exprs))
+            cause = _symbolic_culprits(facts, symseen[k])
+            if cause is None:
+                cause = 'zip-or-assert-not-on-every-path' if _has_constraint_source(facts.ast) else \
+                    '+'.join(sorted({expr_kind(x) for x, _ in symseen[k]}))
+            out.append((f'size/symbolic-unequal/{cause}', f'one length for size variable {k}', sorted(s), exprs))
 
     # ---- result
     if ti is not None:
@@ -383,9 +437,19 @@ def check_run(facts: Facts, rec, result, stats: dict, rows=True):
                             sorted({type(a.site).__name__ for a in allowed}),
                             wk if widx < 0 else nodes[widx].format().splitlines()[0][:60], var.format()))
 
+    # every other analysis is built on def-use: where a read saw a writer that def-use does not list, what
+    # they report about that function is a consequence
+    if any(b.startswith('reach/') for b, *_ in out):
+        add('consequent-failures:after-reach', sum(1 for b, *_ in out if not b.startswith('reach/')))
+        out = [o for o in out if o[0].startswith('reach/')]
+
     # ---- alias
     if al is not None and du is not None:
+        n_before = None
         for sidx, names, places, writers in rec.binds:
+            if n_before is not None and len(out) > n_before:
+                break           # later alias violations of the same run are consequences of the first
+            n_before = len(out)
             groups = {}
             for name, path, oid in places:
                 groups.setdefault(oid, set()).add((name, path))
@@ -445,3 +509,159 @@ def _region(al, d, path):
             return None
         r = al.region_at(r, 1) if k is None else al.region_field(r, k)
     return r
+
+
+# ---------------------------------------------------------------------------
+# root-cause classification of a failing expression
+
+def children(e):
+    out = []
+    for klass in type(e).__mro__:
+        for slot in getattr(klass, '__slots__', ()):
+            if slot == '_loc':
+                continue
+            _collect(getattr(e, slot, None), out)
+    return out
+
+
+def _collect(v, out):
+    if isinstance(v, Expr):
+        out.append(v)
+    elif isinstance(v, (list, tuple)):
+        for x in v:
+            _collect(x, out)
+
+
+def _has_list(v):
+    if isinstance(v, list):
+        return True
+    if isinstance(v, tuple):
+        return any(_has_list(x) for x in v)
+    return False
+
+
+def _shape_differs(a, b):
+    """A store cannot change the length of the list (or the arity/fields' lengths of the tuple) a name is
+    bound to -- only what its elements hold; a re-definition can."""
+    if isinstance(a, tuple) and isinstance(b, tuple) and len(a) == len(b):
+        return any(_shape_differs(x, y) for x, y in zip(a, b))
+    if isinstance(a, list) and isinstance(b, list):
+        return len(a) != len(b)
+    return isinstance(a, (list, tuple)) or isinstance(b, (list, tuple))
+
+
+def _within(root, e):
+    return root is e or any(_within(c, e) for c in children(root))
+
+
+def _def_kind(d):
+    if isinstance(d, PhiDef):
+        return 'loop-header-join' if d.is_loop else 'branch-join'
+    return 'def@' + route_of(d.site)
+
+
+def classify_failure(facts, an, e, info):
+    du = facts.du
+    ek = expr_kind(e)
+    d = du.use_to_def.get(e) if (du is not None and isinstance(e, Var)) else None
+    if an == 'type':
+        if d is not None:
+            return f'type/var:{_def_kind(d)}/{info[0]}'
+        return f'type/{ek}/{info[0]}'
+    if an == 'size':
+        kind = info[0]
+        if d is not None:
+            if isinstance(d, AssignDef) and kind == 'concrete/inner' and not isinstance(d.site, (Argument, FuncDef)):
+                return 'size/inner-size-stale-after-row-store'
+            return f'size/{_def_kind(d)}/{kind}'
+        return f'size/{ek}/{kind}'
+    if an == 'value_class':
+        vc = facts.get('ValueClassInfer')
+        c = info[0]
+        if d is not None:
+            dc = vc.by_def.get(d)
+            if isinstance(dc, ValueClass) and (c & dc):
+                return 'value_class/branch-refinement-excludes-observed'
+            return f'value_class/{_def_kind(d)}'
+        return f'value_class/transfer:{ek}@{_ctx_tag(vc, e)}'
+    if an == 'const':
+        if d is not None:
+            if isinstance(d, PhiDef) and {info[1], info[2]} == {repr('+0'), repr('-0')}:
+                return 'const/merge-equates-signed-zeros'
+            if _has_list(info[0]) and not _shape_differs(info[0], info[3]):
+                return 'const/list-mutated-after-definition'
+            if isinstance(d, PhiDef):
+                if d.is_loop and isinstance(d.site, WhileStmt) and _within(d.site.cond, e):
+                    return 'const/while-condition-stale'
+                return 'const/redefined-in-loop' if d.is_loop else 'const/branch-merge'
+            return f'const/{_def_kind(d)}'
+        return f'const/fold:{ek}'
+    return f'{an}/{ek}'
+
+
+def _ctx_tag(vc, e):
+    from fpy2.analysis.value_class import representable_classes
+    from fpy2.number import REAL
+    scope = vc.ctx_use.use_to_scope.get(e)
+    if scope is None:
+        return 'no-scope'
+    if not isinstance(scope.ctx, Context):
+        return 'symbolic-ctx'
+    if scope.ctx is REAL:
+        return 'REAL'
+    return 'ctx-with-all-classes' if representable_classes(scope.ctx) == ValueClass.TOP else 'ctx-lacking-nan-or-inf'
+
+
+def _symbolic_culprits(facts, seen):
+    """A size variable stands for the length of a parameter.  If every read of a parameter carrying the variable
+    saw one length, the expressions that carried the variable with another length are the culprits: name the
+    innermost ones.  None if the parameters themselves disagree (then the variable was wrongly shared)."""
+    du = facts.du
+    ref = set()
+    for e, ls in seen:
+        if isinstance(e, Var) and du is not None:
+            d = du.use_to_def.get(e)
+            if isinstance(d, AssignDef) and isinstance(d.site, (Argument, FuncDef)):
+                ref.update(ls)
+    if len(ref) != 1:
+        return None
+    bad = {e for e, ls in seen if set(ls) != ref}
+    if not bad:
+        return None
+
+    def tainted(x):
+        return any((c in bad) or tainted(c) for c in children(x))
+
+    def from_bad_def(x):
+        if not isinstance(x, Var) or du is None or x not in du.use_to_def:
+            return False
+        for a in facts.reach_sites(du.use_to_def[x]):
+            srcs = [a.site.expr] if isinstance(a.site, Assign) else [a.site.iterable] if isinstance(a.site, ForStmt) else []
+            if any(y in bad or tainted(y) for y in srcs):
+                return True
+        return False
+    leaves = sorted({expr_kind(e) for e in bad if not tainted(e) and not from_bad_def(e)})
+    return '+'.join(leaves) if leaves else None
+
+
+def _has_constraint_source(ast):
+    """Does the function contain what array_size turns into a global size equality: a strict zip or an assert?"""
+    from fpy2.ast.fpyast import AssertStmt
+    from fpy2.ast.visitor import DefaultVisitor
+
+    class _Has(DefaultVisitor):
+        found = False
+
+        def _visit_statement(self, stmt, ctx):
+            if isinstance(stmt, AssertStmt):
+                self.found = True
+            return super()._visit_statement(stmt, ctx)
+
+        def _visit_expr(self, e, ctx):
+            if isinstance(e, Zip):
+                self.found = True
+            return super()._visit_expr(e, ctx)
+
+    h = _Has()
+    h._visit_function(ast, None)
+    return h.found
